@@ -286,7 +286,7 @@ class PTA:
             src = o.extra[1]
             for so in self.read_field(src, fld):
                 out.add(self._clone_of(o, so))
-        if not out and o.kind in ('param', 'field', 'ext', 'ext_inst', 'extmod'):
+        if not out and o.kind in ('param', 'field', 'ext', 'extmod'):
             out.add(self.field_obj(o, fld))
         return out
 
@@ -522,6 +522,8 @@ class PTA:
             if st.value is not None:
                 self.add(('R', self._vq), self.ev(st.value))
         elif isinstance(st, (ast.If, ast.While)):
+            if f.kind == 'module' and isinstance(st, ast.If) and _is_main_guard(st.test):
+                return          # script entry point: never executed when the library is imported
             self.ev(st.test)
             self.exec_block(st.body)
             self.exec_block(st.orelse)
@@ -1429,6 +1431,12 @@ def _ann_text(a: ast.expr) -> str:
     except Exception:
         return '?'
 
+
+
+def _is_main_guard(t: ast.expr) -> bool:
+    return isinstance(t, ast.Compare) and isinstance(t.left, ast.Name) and t.left.id == '__name__' and \
+        len(t.comparators) == 1 and isinstance(t.comparators[0], ast.Constant) and \
+        t.comparators[0].value == '__main__'
 
 
 def _const_index(s: ast.expr) -> Optional[int]:
